@@ -341,8 +341,11 @@ def jobs(tier):
                 mid = {"cal": {"M": (6, 6), "D": (14, 15)}, "ord": {"DOY": (180, 181)}, "week": {"W": (26, 26)}}[rep]
                 J.append(("job_format", dict(mode=mode, rep=rep, fmt=fmt, ranges=dict(top, tzh=(-14, 14), **mid))))
                 if th:
+                    # (years 20xx, whole-hour offsets: these jobs hit the job budget with free digits; at year 0000 / 9999 the conversion to the format's zone or week-year leaves the
+                    # four digits, which the dumper rightly refuses)
                     J.append(("job_format", dict(mode=mode, rep={"cal": "ord", "ord": "week", "week": "cal"}[rep], fmt=fmt,
-                                                 ranges={"DOY": (1, 3), "W": (1, 1), "M": (1, 1)})))
+                                                 ranges={"DOY": (1, 2), "W": (1, 1), "WD": (1, 2), "M": (1, 1), "D": (1, 2), "y0": (2, 2), "y1": (0, 0),
+                                                         "tzh": (-14, 14), "tzm": (0, 0)})))
     return J
 
 
